@@ -19,11 +19,17 @@ CONSTANTS Streams,     \* stream names
           TaskOf,      \* TaskOf[s] : task replicating the stream's collection
           Script,      \* Script[s] : sequence of BOOLEAN (TRUE = pack carries data, FALSE = tick-only)
           MaxCount,    \* batch size of the batcher
-          MaxFaults, MaxCrashes, MayPause
+          MaxFaults, MaxCrashes, MayPause,
+          StopOnAckFailure,  \* TRUE = as built: the first failing downstream write ends the flush (nothing after it is written,
+                             \* no checkpoint is persisted).  FALSE (negative control): the loop carries on with the rest
+                             \* of the batch and persists the last written pack of every stream
+          RetryAfterPause    \* FALSE = as built: a failed batch is dropped.  TRUE (negative control): it stays in the batcher
+                             \* and the final flush of the ending write loop writes it again after the task was paused
 
 Tasks == {TaskOf[s] : s \in Streams}
 
-VARIABLES cur,      \* next pack index to read per stream (registration cursor)
+VARIABLES late,     \* ghost: a downstream / checkpoint write was issued for a task after its failure pause (same incarnation)
+          cur,      \* next pack index to read per stream (registration cursor)
           buf,      \* batcher content: sequence of <<s, k>>
           acked,    \* downstream memory: set of <<s, k>>
           ckpt,     \* persisted checkpoint per stream (0 = initial position)
@@ -32,18 +38,19 @@ VARIABLES cur,      \* next pack index to read per stream (registration cursor)
           up,       \* an incarnation is running
           nf, nc,   \* faults / crashes used
           hist
-vars == <<cur, buf, acked, ckpt, state, live, up, nf, nc, hist>>
-view == <<cur, buf, acked, ckpt, state, live, up, nf, nc>>
+vars == <<late, cur, buf, acked, ckpt, state, live, up, nf, nc, hist>>
+view == <<late, cur, buf, acked, ckpt, state, live, up, nf, nc>>
 
 Init == /\ cur = [s \in Streams |-> 0] /\ buf = <<>> /\ acked = {} /\ ckpt = [s \in Streams |-> 0]
         /\ state = [t \in Tasks |-> "Running"] /\ live = {} /\ up = FALSE /\ nf = 0 /\ nc = 0 /\ hist = <<>>
+        /\ late = FALSE
 
 \* (re)start: every Running task reads again from its persisted checkpoints
 Boot == /\ ~up
         /\ up' = TRUE /\ buf' = <<>>
         /\ live' = {t \in Tasks : state[t] = "Running"}
         /\ cur' = [s \in Streams |-> IF state[TaskOf[s]] = "Running" THEN ckpt[s] ELSE cur[s]]
-        /\ UNCHANGED <<acked, ckpt, state, nf, nc>>
+        /\ UNCHANGED <<late, acked, ckpt, state, nf, nc>>
         /\ hist' = Append(hist, [op |-> IF hist = <<>> THEN "boot" ELSE "restart"])
 
 \* the visible steps of writing a batch b: one ack per pack, then one checkpoint write per stream
@@ -56,22 +63,28 @@ StreamsIn(b) == {b[i][1] : i \in 1..Len(b)}
 Flush(b, ord, f, c) ==
     LET n == Len(b)
         stopAck == IF c > 0 /\ c <= n THEN c - 1                   \* acks that take effect before a crash
-                   ELSE IF f > 0 /\ f <= n THEN f - 1 ELSE n       \* ... or before a failing ack
-        ackedNow == {<<b[i][1], b[i][2]>> : i \in 1..stopAck}
+                   ELSE IF f > 0 /\ f <= n /\ StopOnAckFailure THEN f - 1 ELSE n       \* ... or before a failing ack
+        ackedNow == {<<b[i][1], b[i][2]>> : i \in 1..stopAck} \ (IF f > 0 /\ f <= n THEN {<<b[f][1], b[f][2]>>} ELSE {})
         ackFailed == (f > 0 /\ f <= n) /\ ~(c > 0 /\ c <= f)
         crashedInAcks == c > 0 /\ c <= n
         m == Len(ord)
         \* checkpoint writes happen only when every ack succeeded
-        putsTried == IF ackFailed \/ crashedInAcks THEN 0 ELSE m
+        putsTried == IF (ackFailed /\ StopOnAckFailure) \/ crashedInAcks THEN 0 ELSE m
         stopPut == IF putsTried = 0 THEN 0
                    ELSE IF c > n /\ c <= n + m /\ ~(f > n /\ f < c) THEN c - n - 1
                    ELSE IF f > n /\ f <= n + m THEN f - n - 1 ELSE putsTried
         putFailed == putsTried > 0 /\ (f > n /\ f <= n + m) /\ ~(c > n /\ c <= f)
         crashed == c > 0 /\ c <= n + putsTried
-        newCk == [s \in Streams |-> IF \E i \in 1..stopPut : ord[i] = s THEN LastOf(b, s) ELSE ckpt[s]]
+        \* (with the negative control the last pack of a stream that was WRITTEN is persisted: the failing one is skipped)
+        written == IF ackFailed THEN SelectSeq(b, LAMBDA x : x # b[f]) ELSE b
+        newCk == [s \in Streams |-> IF (\E i \in 1..stopPut : ord[i] = s) /\ s \in StreamsIn(written)
+                                      THEN LastOf(written, s) ELSE ckpt[s]]
         \* an error pauses the task that owns the failing pack / key
         failTask == IF ackFailed THEN {TaskOf[b[f][1]]} ELSE IF putFailed THEN {TaskOf[ord[f - n]]} ELSE {}
-    IN [acked |-> ackedNow, ckpt |-> newCk, paused |-> failTask, crashed |-> crashed]
+        \* negative control RetryAfterPause: the failed batch is written again by the final flush, after the pause
+        retried == RetryAfterPause /\ ackFailed /\ ~crashed
+    IN [acked |-> ackedNow \cup (IF retried THEN {<<b[i][1], b[i][2]>> : i \in 1..(f - 1)} ELSE {}),
+        ckpt |-> newCk, paused |-> failTask, crashed |-> crashed, late |-> retried]
 
 Deliver(s, f, c, ord) ==
     /\ up /\ TaskOf[s] \in live /\ cur[s] < Len(Script[s])
@@ -81,13 +94,14 @@ Deliver(s, f, c, ord) ==
        /\ cur' = [cur EXCEPT ![s] = k]
        /\ IF ~full
             THEN /\ f = 0 /\ c = 0 /\ ord = <<>>
-                 /\ buf' = b /\ UNCHANGED <<acked, ckpt, state, live, up, nf, nc>>
+                 /\ buf' = b /\ UNCHANGED <<late, acked, ckpt, state, live, up, nf, nc>>
             ELSE /\ f \in 0..(Len(b) + Cardinality(StreamsIn(b))) /\ c \in 0..(Len(b) + Cardinality(StreamsIn(b)))
                  /\ (f > 0 => nf < MaxFaults) /\ (c > 0 => nc < MaxCrashes)
                  /\ ((f > 0 /\ c > 0) => c <= f)      \* the pause that follows a failure has visible steps of its own (not modelled)
                  /\ Len(ord) = Cardinality(StreamsIn(b)) /\ {ord[i] : i \in 1..Len(ord)} = StreamsIn(b)
                  /\ LET r == Flush(b, ord, f, c) IN
                     /\ acked' = acked \cup r.acked
+                    /\ late' = (late \/ r.late)
                     /\ ckpt' = r.ckpt
                     /\ buf' = <<>>
                     /\ IF r.crashed
@@ -105,18 +119,18 @@ Deliver(s, f, c, ord) ==
 
 Kill == /\ up /\ nc < MaxCrashes
         /\ up' = FALSE /\ live' = {} /\ nc' = nc + 1 /\ buf' = <<>>
-        /\ UNCHANGED <<cur, acked, ckpt, state, nf>>
+        /\ UNCHANGED <<late, cur, acked, ckpt, state, nf>>
         /\ hist' = Append(hist, [op |-> "kill"])
 
 Pause(t) == /\ MayPause /\ up /\ t \in live /\ buf = <<>>
             /\ state' = [state EXCEPT ![t] = "Paused"] /\ live' = live \ {t}
-            /\ UNCHANGED <<cur, buf, acked, ckpt, up, nf, nc>>
+            /\ UNCHANGED <<late, cur, buf, acked, ckpt, up, nf, nc>>
             /\ hist' = Append(hist, [op |-> "pause", task |-> t])
 
 Resume(t) == /\ up /\ state[t] = "Paused"
              /\ state' = [state EXCEPT ![t] = "Running"] /\ live' = live \cup {t}
              /\ cur' = [s \in Streams |-> IF TaskOf[s] = t THEN ckpt[s] ELSE cur[s]]
-             /\ UNCHANGED <<buf, acked, ckpt, up, nf, nc>>
+             /\ UNCHANGED <<late, buf, acked, ckpt, up, nf, nc>>
              /\ hist' = Append(hist, [op |-> "resume", task |-> t])
 
 Next == \/ Boot \/ Kill
@@ -135,6 +149,8 @@ AtLeastOnce == Done => \A s \in Streams : \A k \in 1..Len(Script[s]) : Script[s]
 \* readers never start beyond the checkpoint (resume loses nothing)
 CursorFromCkpt == \A s \in Streams : TaskOf[s] \in live => cur[s] >= ckpt[s] \/ TRUE
 C05 == CkptBehindAcks /\ AtLeastOnce
+\* C06 "stops emitting": nothing is written for a task after its failure pause within the incarnation
+QuietAfterPause == ~late
 
 PlanOut == (Done \/ Len(hist) >= 14) => PrintT("PLAN " \o ToJson(hist))
 =============================================================================
